@@ -289,6 +289,45 @@ def _s3(ctx, adv, fwd, sl, rel):
                 col.ob("G13", "S3", f"{rel}::ctc_prefix_search_advance::pad-prefix-relation[{n_rel}]", ok,
                        f"`{u(n)}` pads the prefix relation with something other than False", rel, n.lineno, sample=u(n))
     col.floor("advance_mass_pad_sites", n_mass, 2)
+    # case splits over one per-path predicate: in `p | (~p' & q)` (k is unextended, or it is extended and its new label matches)
+    # p and p' are the same vector and must be laid along the same axis of the (k, k') relation - viewed along different axes
+    # the two arms talk about different paths
+    def _axis_view(e):
+        if isinstance(e, ast.UnaryOp) and isinstance(e.op, ast.Invert):
+            e = e.operand
+        if isinstance(e, ast.Call) and isinstance(e.func, ast.Attribute) and e.func.attr == "unsqueeze" and len(e.args) == 1:
+            return u(e.func.value), u(e.args[0])
+        return None
+    nsplit, badsplit = 0, []
+    from sa.inline import Inliner as _InlCS
+    _inl_cs = _InlCS(adv.node, rda)
+    cands_ = []
+    for st_ in own_nodes(adv.node):
+        if isinstance(st_, ast.Assign):
+            cands_ += [x for x in ast.walk(_inl_cs.expand(st_.value)) if isinstance(x, ast.BinOp)]
+    seen_cs = set()
+    for n in cands_:
+        if u(n) in seen_cs:
+            continue
+        seen_cs.add(u(n))
+        if isinstance(n, ast.BinOp) and isinstance(n.op, ast.BitOr):
+            for a_, b_ in ((n.left, n.right), (n.right, n.left)):
+                va = _axis_view(a_)
+                if va is None or not (isinstance(b_, ast.BinOp) and isinstance(b_.op, ast.BitAnd)):
+                    continue
+                for c_ in (b_.left, b_.right):
+                    if isinstance(c_, ast.UnaryOp) and isinstance(c_.op, ast.Invert):
+                        vb = _axis_view(c_)
+                        if vb is not None and vb[0] == va[0]:
+                            nsplit += 1
+                            if vb[1] != va[1]:
+                                badsplit.append((n, va, vb))
+    col.count("case_split_sites", nsplit)  # (a hazard pattern, not an anchor: written with torch.where there is no such site)
+    col.ob("G19", "S3", f"{rel}::ctc_prefix_search_advance::case-split-over-one-path-index", not badsplit,
+           (f"`{u(badsplit[0][0])[:110]}` splits on `{badsplit[0][1][0]}` laid along axis {badsplit[0][1][1]} in one arm and axis "
+            f"{badsplit[0][2][1]} in the other: the 'is an extension' test is applied to the other path of the pair, so an extension that is "
+            f"a prefix of a surviving prefix is not recorded as one and the same label sequence later appears twice") if badsplit else "",
+           rel, badsplit[0][0].lineno if badsplit else adv.line, sample=nsplit)
     col.floor("advance_relation_pad_sites", n_rel, 2)
     # forward: the two padding sites (inside the loop and after it)
     rdf = sl.rd
@@ -323,6 +362,12 @@ def _is_neg_inf_fill(rd, e) -> bool:
 
 def _is_false_fill(rd, e) -> bool:
     der = rd.derives(e, max_depth=3)
+    # a negated / complemented source is not False (`~false_` pads with True)
+    for x in [e] + list(der.exprs):
+        for y in ast.walk(x):
+            if (isinstance(y, ast.UnaryOp) and isinstance(y.op, (ast.Invert, ast.Not))) or (
+                    isinstance(y, ast.Call) and call_name(y).split(".")[-1] in ("logical_not", "ones", "new_ones", "ones_like", "bitwise_not")):
+                return False
     for c in der.calls():
         last = call_name(c).split(".")[-1]
         if last in ("zeros", "new_zeros") and any(k.arg == "dtype" and u(k.value) == "torch.bool" for k in c.keywords):
